@@ -12,7 +12,7 @@ use std::{
 };
 
 use crate::{
-    common::INTERNAL_NESTED_TYPE_NAME_PREFIX,
+    common::{INTERNAL_EXTENSION_GROUP_NAME_PREFIX, INTERNAL_NESTED_TYPE_NAME_PREFIX},
     intermediate::{error::*, information_object::*, types::*, utils::*, *},
     validator::{
         linking::utils::bit_string_to_octet_string,
@@ -643,6 +643,12 @@ impl ASN1Type {
             ASN1Type::Set(s) | ASN1Type::Sequence(s) => {
                 let mut children = Vec::new();
                 for member in &mut s.members {
+                    if member.name.starts_with(INTERNAL_EXTENSION_GROUP_NAME_PREFIX) {
+                        // an extension addition group cannot be boxed itself (rasn requires the
+                        // group type to be `Constructed`): box the recursive members inside it
+                        children.append(&mut member.ty.mark_recursive(name, tlds)?);
+                        continue;
+                    }
                     member.is_recursive = member.ty.recurses(name, tlds, Vec::new());
                     let mem_ty_name = member.ty.as_str().into_owned();
                     let mut mem_children = member.ty.mark_recursive(&mem_ty_name, tlds)?;
